@@ -489,7 +489,9 @@ def _key_obj(ks):
     if k == "call":
         return NamedPred(ks[1])
     if k == "other":
-        return {"float": 1.5, "none": None, "bytes": b"x", "rec": _rec, "list": [1]}[ks[1]]
+        from treepath import path as _p
+        return {"float": 1.5, "none": None, "bytes": b"x", "rec": _rec, "list": [1], "pathexpr": _p.a,
+                "pathpred": _p.a == 1}[ks[1]]
     raise ValueError(ks)
 
 
